@@ -200,20 +200,23 @@ class TaskScheduler(object):
         old_task = self.active_task
         self.active_task = task
 
-        if _debug_options.DUMP_CONTINUE_TASK:
-            debug.write("@async: -> continuing %s" % debug.str(task))
-        if _debug_options.COLLECT_PERF_STATS:
-            start = utime()
-            task._continue()
-            task._total_time += utime() - start
-            if task.is_computed():
-                task.dump_perf_stats()
-        else:
-            task._continue()
-        if _debug_options.DUMP_CONTINUE_TASK:
-            debug.write("@async: <- continued %s" % debug.str(task))
-
-        self.active_task = old_task
+        try:
+            if _debug_options.DUMP_CONTINUE_TASK:
+                debug.write("@async: -> continuing %s" % debug.str(task))
+            if _debug_options.COLLECT_PERF_STATS:
+                start = utime()
+                task._continue()
+                task._total_time += utime() - start
+                if task.is_computed():
+                    task.dump_perf_stats()
+            else:
+                task._continue()
+            if _debug_options.DUMP_CONTINUE_TASK:
+                debug.write("@async: <- continued %s" % debug.str(task))
+        finally:
+            # Also when an exception escapes from the step itself (e.g.
+            # FutureIsAlreadyComputed for a task that was completed while it ran).
+            self.active_task = old_task
         # We get a new set of dependencies when we run _continue, so these haven't
         # been scheduled.
         task._dependencies_scheduled = False
